@@ -468,7 +468,52 @@ def r20_16(ctx):
            'every path from self.wait(...) to the return passes %s()' % P, path=w)
 
 
+
+def r20_17(ctx):
+    ctx.rule('R20.17', 'a proxy call reads the reply to its own request before it does anything else with the '
+                       'connection: between send and recv there is no way out (a call that gives up after sending leaves '
+                       'its reply for the next call of the thread to read as its own)', floor=1)
+    m = ctx.model
+    fi = m.func('managers:BaseProxy._callmethod')
+    cfg = fi.cfg
+    # the request: <conn>.send((self._id, methodname, args, kwds)); the reply: <conn>.recv() on the same object
+    req = [(n, c) for (n, c) in q.calls(fi, lambda t: t.endswith('.send'))
+           if c.args and isinstance(c.args[0], ast.Tuple) and c.args[0].elts and ast.unparse(c.args[0].elts[0]) == 'self._id']
+    sends = [n for (n, c) in req]
+    recv_names = {ast.unparse(c.func.value) + '.recv' for (n, c) in req}
+    recvs = [n for (n, c) in q.calls(fi, lambda t: t.endswith('.recv')) if ast.unparse(c.func) in recv_names]
+    q.need(sends and recvs, '_callmethod: send / recv not found')
+    between = cfg.reach([s.id for s in sends], block_nodes={r.id for r in recvs}, skip_labels=('x',))
+    outs = [cfg.nodes[i] for i in sorted(between) if cfg.nodes[i].kind == 'stmt' and
+            isinstance(cfg.nodes[i].ast, (ast.Raise, ast.Return))]
+    ctx.ob('R20.17', '_callmethod:reply-read-after-every-request', not outs and cfg.exit.id not in between, fi,
+           outs[0] if outs else sends[0],
+           'every normal path from conn.send(...) reaches conn.recv()' if not outs else
+           '`%s` between send and recv: the request was made, its reply stays unread on the cached connection'
+           % ast.unparse(outs[0].ast)[:50])
+
+
+def r20_18(ctx):
+    ctx.rule('R20.18', 'a proxy unpickled while a child process is being set up takes no reference of its own (the '
+                       'after-fork hook of the started process does): RebuildProxy suppresses incref while the current '
+                       'process is _inheriting', floor=1)
+    m = ctx.model
+    fi = m.func('managers:RebuildProxy')
+    calls = [c for c in walk_own(fi.node) if isinstance(c, ast.Call) and any(k.arg == 'incref' for k in c.keywords)]
+    q.need(calls, 'RebuildProxy: call with incref= not found')
+    for c in calls:
+        v = [k.value for k in c.keywords if k.arg == 'incref'][0]
+        text = q.expand(fi, v)
+        ok = '_inheriting' in text and 'not' in text
+        ctx.ob('R20.18', 'RebuildProxy:no-incref-while-inheriting', ok, fi, c,
+               'incref = ... and not getattr(current_process(), \'_inheriting\', False)' if ok else
+               'incref=%s: a proxy in the arguments of a spawned child takes a reference whose finalizer is thrown away '
+               'when the child clears its registry; the referent is never released' % text[:60])
+
+
 def run(ctx):
+    r20_17(ctx)
+    r20_18(ctx)
     r20_15(ctx)
     r20_16(ctx)
     r20_13(ctx)
@@ -498,6 +543,8 @@ def run(ctx):
 
 _M = 'billiard/managers.py'
 MUTANTS = [
+    ('proxy-call-gives-up-after-sending', 'billiard/managers.py', "        conn.send((self._id, methodname, args, kwds))\n        kind, result = conn.recv()\n", "        conn.send((self._id, methodname, args, kwds))\n        if not conn.poll(20):\n            raise TimeoutError('no reply')\n        kind, result = conn.recv()\n", 'R20.17'),
+    ('rebuilt-proxy-increfs-while-inheriting', 'billiard/managers.py', "        incref = (\n            kwds.pop('incref', True) and\n            not getattr(process.current_process(), '_inheriting', False)\n        )\n", "        incref = kwds.pop('incref', True)\n", 'R20.18'),
     ('referent-errors-fall-through-to-the-dispatcher', 'billiard/managers.py', "                try:\n                    res = function(*args, **kwds)\n                except Exception as exc:\n                    msg = ('#ERROR', exc)\n                else:\n", "                res = function(*args, **kwds)\n                if True:\n", 'R20.15'),
     ('wait_for-skips-the-predicate-after-a-timeout', 'billiard/managers.py', "            self.wait(waittime)\n            result = predicate()\n", "            if not self.wait(waittime):\n                break\n            result = predicate()\n", 'R20.16'),
     ('iadd-sends-items-one-by-one', 'billiard/managers.py', "        self._callmethod('extend', (value,))\n        return self\n", "        for item in value:\n            self._callmethod('append', (item,))\n        return self\n", 'R20.13'),
